@@ -139,6 +139,12 @@ func (w *World) Init(id int, s Script) {
 }
 
 func (w *World) Code(a common.Address, s Script) {
+	if len(s) == 0 {
+		// The assembled code of an empty script is the single byte STOP, so the account IS a contract for
+		// the code (RemoveMiner keeps a fully refunded miner whose account is a contract).  The model decides
+		// `hasCodeIn` by the script being non-empty: say what is installed.
+		s = Script{{Kind: "st"}}
+	}
 	w.codes[a] = s
 	hasAc := false
 	for _, x := range s {
